@@ -61,6 +61,10 @@ pub enum ErrA<'a> {
         msg: &'a str,
         opt: Option<u32>,
     },
+    /// Every field optional: still "has fields", so `parameters` is always written.
+    Opts {
+        o: Option<u32>,
+    },
 }
 
 #[derive(Debug, PartialEq, ReplyError)]
@@ -378,12 +382,12 @@ pub fn call_roundtrip(nd: &mut Nd) {
             1 => "org.example.Setv",
             _ => "org.example.Name",
         };
-        assert!(matches!(&m.vals[i], Val::Leaf(Leaf::Str(t)) if t.is(name)), "C05.call_method_name_is_the_declared_one");
+        assert!(matches!(m.vals[i].as_leaf(), Some(l) if l.is_str(name)), "C05.call_method_name_is_the_declared_one");
     }
     if which == 1 {
         let i = m.find("parameters").unwrap_or(0);
         assert!(
-            matches!(&m.vals[i], Val::Obj(o) if o.n == 1 && o.keys[0].is("v") && matches!(o.vals[0], Leaf::Num(n) if n == v as u64)),
+            matches!(m.vals[i].as_obj(), Some(o) if o.n == 1 && o.keys[0].is("v") && o.vals[0].is_num(v as u64)),
             "C05.call_parameters_hold_the_fields"
         );
     }
@@ -401,8 +405,8 @@ pub fn call_roundtrip(nd: &mut Nd) {
 
 fn flag_is(m: &MapTok, k: &str) -> Option<bool> {
     match m.find(k) {
-        Some(i) => match &m.vals[i] {
-            Val::Leaf(Leaf::Bool(b)) => Some(*b),
+        Some(i) => match m.vals[i].as_leaf() {
+            Some(l) if l.kind == crate::tok::K_BOOL => Some(l.b),
             _ => Some(false),
         },
         None => None,
@@ -414,7 +418,7 @@ fn flag_is(m: &MapTok, k: &str) -> Option<bool> {
 /// Derived error enum → `{"error": "<interface>.<Variant>"}` plus `parameters` exactly when the
 /// variant has fields, under their wire names; round trip.
 pub fn error_encode_roundtrip(nd: &mut Nd) {
-    let which = nd.below(5);
+    let which = nd.below(6);
     let v = nd.u32();
     let has_opt = nd.bool();
     let e = match which {
@@ -422,7 +426,8 @@ pub fn error_encode_roundtrip(nd: &mut Nd) {
         1 => ErrA::Other,
         2 => ErrA::Code { code: v },
         3 => ErrA::Rena { rust_name: v },
-        _ => ErrA::Msgs { msg: "hi", opt: if has_opt { Some(v) } else { None } },
+        4 => ErrA::Msgs { msg: "hi", opt: if has_opt { Some(v) } else { None } },
+        _ => ErrA::Opts { o: if has_opt { Some(v) } else { None } },
     };
     let m = match to_tokens(&e) {
         Ok(m) => m,
@@ -433,34 +438,35 @@ pub fn error_encode_roundtrip(nd: &mut Nd) {
         1 => "org.ex.Other",
         2 => "org.ex.Code",
         3 => "org.ex.Rena",
-        _ => "org.ex.Msgs",
+        4 => "org.ex.Msgs",
+        _ => "org.ex.Opts",
     };
     assert!(m.n == if which < 2 { 1 } else { 2 }, "C05.error_has_parameters_exactly_when_it_has_fields");
-    assert!(matches!(m.find("error"), Some(i) if matches!(&m.vals[i], Val::Leaf(Leaf::Str(t)) if t.is(name))),
+    assert!(matches!(m.find("error"), Some(i) if matches!(m.vals[i].as_leaf(), Some(l) if l.is_str(name))),
         "C05.error_name_is_interface_dot_variant");
     if which >= 2 {
         let i = match m.find("parameters") {
             Some(i) => i,
             None => panic!("C05.error_has_parameters_exactly_when_it_has_fields"),
         };
-        let o = match &m.vals[i] {
-            Val::Obj(o) => o,
-            _ => panic!("C05.error_parameters_is_an_object"),
+        let o = match m.vals[i].as_obj() {
+            Some(o) => o,
+            None => panic!("C05.error_parameters_is_an_object"),
         };
         match which {
-            2 => assert!(o.n == 1 && o.keys[0].is("code") && matches!(o.vals[0], Leaf::Num(n) if n == v as u64),
+            2 => assert!(o.n == 1 && o.keys[0].is("code") && o.vals[0].is_num(v as u64),
                 "C05.error_fields_under_their_wire_names"),
-            3 => assert!(o.n == 1 && o.keys[0].is("wireName") && matches!(o.vals[0], Leaf::Num(n) if n == v as u64),
+            3 => assert!(o.n == 1 && o.keys[0].is("wireName") && o.vals[0].is_num(v as u64),
                 "C05.error_fields_under_their_wire_names"),
+            5 => assert!(
+                o.n == 1 && o.keys[0].is("o") && if has_opt { o.vals[0].is_num(v as u64) } else { o.vals[0].is_null() },
+                "C05.error_fields_under_their_wire_names"
+            ),
             _ => {
                 assert!(o.n == 2 && o.keys[0].is("msg") && o.keys[1].is("opt"), "C05.error_fields_under_their_wire_names");
-                assert!(matches!(&o.vals[0], Leaf::Str(t) if t.is("hi")), "C05.error_fields_under_their_wire_names");
+                assert!(o.vals[0].is_str("hi"), "C05.error_fields_under_their_wire_names");
                 assert!(
-                    match (&o.vals[1], has_opt) {
-                        (Leaf::Num(n), true) => *n == v as u64,
-                        (Leaf::Null, false) => true,
-                        _ => false,
-                    },
+                    if has_opt { o.vals[1].is_num(v as u64) } else { o.vals[1].is_null() },
                     "C05.error_fields_under_their_wire_names"
                 );
             }
@@ -469,6 +475,7 @@ pub fn error_encode_roundtrip(nd: &mut Nd) {
     let back: Result<ErrA<'_>, _> = from_tokens(&m);
     assert!(matches!(&back, Ok(b) if *b == e), "C05.error_roundtrip");
     cover!(nd, which == 4 && has_opt, "borrowed + optional field variant");
+    cover!(nd, which == 5 && !has_opt, "all-optional variant with nothing set");
     core::mem::forget(back);
 }
 
